@@ -207,7 +207,9 @@ pub fn parse_with_parser(result: &mut Buffer, interpreter: &mut dyn BufferParser
     }
     let mut num = 0;
     while !result.layers[0].sixels.is_empty() {
-        if let Some(mut sixel) = result.layers[0].sixels.pop() {
+        // oldest first: an image that arrived later becomes a higher layer, as it is drawn later on a terminal
+        {
+            let mut sixel = result.layers[0].sixels.remove(0);
             let size = sixel.get_size();
             let font_size = result.get_font_dimensions();
             let size = Size::new(
